@@ -11,6 +11,7 @@ import (
 	"fmt"
 	"os"
 	"path/filepath"
+	"runtime"
 	"sort"
 	"strings"
 	"sync"
@@ -164,7 +165,20 @@ func main() {
 	r := &run{component: *comp, tier: *tier, seed: *seed, outDir: *out,
 		cases: cw, impl: iw, oracle: ow,
 		hist: map[string]int{}, distinct: map[string]bool{}, nontriv: map[string]bool{}, notes: map[string]any{}}
-	err := fn(r)
+	// The implementation is called in-process by the unit components: a Go panic inside it (an
+	// index or slice error on a peer-controlled value, say) is the implementation's failure on the
+	// case at hand, not the harness's — record it as a property-oracle failure with the stack.
+	err := func() (err error) {
+		defer func() {
+			if p := recover(); p != nil {
+				buf := make([]byte, 1<<16)
+				buf = buf[:runtime.Stack(buf, false)]
+				r.oracleFail("panic", fmt.Sprintf("the implementation panicked inside component %s: %v", *comp, p),
+					map[string]any{"panic": fmt.Sprint(p), "stack": string(buf), "after_cases": r.nCases})
+			}
+		}()
+		return fn(r)
+	}()
 	cw.Flush()
 	iw.Flush()
 	ow.Flush()
